@@ -55,9 +55,16 @@ type tcase struct {
 	trivial          bool
 	pubs             [][]*big.Int
 	spec             string
+	// custom cases (KZG adversary): own evaluation, configuration label and replay data
+	custom       func() outcome
+	customCfg    string
+	customReplay map[string]any
 }
 
 func (c *tcase) cfg() string {
+	if c.custom != nil {
+		return c.customCfg
+	}
 	if c.g16 != nil {
 		return fmt.Sprintf("%s,complete=%v,subgroup=%v,%s", c.g16.mode, c.g16.complete, c.g16.subgroup, c.g16.engine)
 	}
@@ -88,6 +95,12 @@ func (c *tcase) replay() map[string]any {
 		pubs = append(pubs, vecStr(p))
 	}
 	m["public"] = pubs
+	for k, v := range c.customReplay {
+		m[k] = v
+	}
+	if c.custom != nil && c.plk == nil {
+		return m
+	}
 	if c.g16 != nil {
 		m["proof_hex"] = hexOf(c.g16.proof)
 		var vks []string
@@ -150,9 +163,12 @@ func (c *tcase) run(r *vcore.Run) {
 	done := make(chan struct{})
 	go func() {
 		defer close(done)
-		if c.g16 != nil {
+		switch {
+		case c.custom != nil:
+			o = c.custom()
+		case c.g16 != nil:
 			o = c.rn.RunG16(c.g16)
-		} else {
+		default:
 			o = c.rn.RunPlonk(c.plk)
 		}
 	}()
@@ -173,7 +189,7 @@ func (c *tcase) run(r *vcore.Run) {
 	eng := "test"
 	if c.g16 != nil {
 		eng = c.g16.engine
-	} else {
+	} else if c.plk != nil {
 		eng = c.plk.engine
 	}
 	r.Count(pre+"cases", 1)
@@ -1023,10 +1039,10 @@ func weight(c *tcase) int {
 	if c.rn.Name() == "emulated" {
 		w += 10
 	}
-	eng := ""
+	eng := "test"
 	if c.g16 != nil {
 		eng = c.g16.engine
-	} else {
+	} else if c.plk != nil {
 		eng = c.plk.engine
 	}
 	if eng != "test" {
